@@ -62,12 +62,23 @@ JudgeEdit(e) ==
     /\ \A b \in DOMAIN e.banded :
           Check(e, "Banded", BandedOK(e.s, e.t, b - 1, e.banded[b]))
 
+(* Calls issued from several threads at once on LONG strings (the row DP above is far too slow for them in TLC).
+   The pair is planted: s avoids letter 3 and t is s with some positions replaced by letter 3.  Every 3 in t needs
+   an edit operation of its own and the substitutions suffice, so Lev(s, t) = number of 3s in t.
+   res = the distinct results of all concurrent calls on the pair. *)
+Planted(e) == /\ Len(e.s) = Len(e.t)
+              /\ \A i \in DOMAIN e.s : e.s[i] # 3 /\ (e.t[i] = e.s[i] \/ e.t[i] = 3)
+JudgeEditPar(e) ==
+    /\ Check(e, "ScenarioInDomain", Planted(e))
+    /\ Check(e, "LevenshteinUnderConcurrency", e.res = << Cardinality({i \in DOMAIN e.t : e.t[i] = 3}) >>)
+
 Judge(e) ==
     CASE e.ev = "Geno"     -> JudgeGeno(e)
       [] e.ev = "FromIdx"  -> JudgeFromIdx(e)
       [] e.ev = "Cmp"      -> JudgeCmp(e)
       [] e.ev = "EndSpace" -> JudgeEndSpace(e)
       [] e.ev = "Edit"     -> JudgeEdit(e)
+      [] e.ev = "EditPar"  -> JudgeEditPar(e)
       [] OTHER             -> Fail(e, "UnknownEvent")
 
 Init == l = 1 /\ seen = {}
